@@ -125,6 +125,16 @@ def ramRead (parts : List Bytes) (lenp : Nat) : Nat → RCur → Bytes → Bytes
 
 def readFuel (parts : List Bytes) (lenp : Nat) : Nat := parts.length + lenp + 2
 
+/-- Vocabulary for statements about the reader (not used by the executable model):
+    the cursor is usable — `curPos` does not exceed the current part (Go would panic on
+    `buf[r.curPos:]` otherwise); past the last part the position is 0. -/
+def RCur.ok (parts : List Bytes) (c : RCur) : Prop :=
+  c.curPos ≤ (parts.getD c.curPart []).length
+
+/-- The bytes that are still ahead of the cursor. -/
+def remaining (parts : List Bytes) (c : RCur) : Bytes :=
+  ((parts.drop c.curPart).flatten).drop c.curPos
+
 /-- Read with each buffer size of `bufs`; stop early at EOF. Returns all bytes, whether EOF was seen, cursor. -/
 def ramReadSeq (parts : List Bytes) : List Nat → RCur → Bytes → Bytes × Bool × RCur
   | [], c, out => (out, false, c)
@@ -212,6 +222,12 @@ def lastEnd (parts : List DPart) : Nat :=
   | none => 0
   | some p => p.offset + p.size
 
+/-- Faithful to the Go code on every disciplined sequence (`WF`, `WFrm`) and, outside the
+    discipline, for writes/seeks to earlier parts, `Remove` before `Finalize` and NON-EMPTY
+    writes after `Finalize` (all exercised by the T2 `undisciplined` stream).  NOT modelled:
+    `Seek` / empty `Write` / `NewPart` / a second `Finalize` after `Finalize` -- there the real
+    code dereferences the dropped mirror buffer (nil-pointer panic) or keeps using the orphaned
+    one, depending on when `Part.Writer()` was called (notes/storage.md). -/
 def Disk.step (s : Disk) : Op → Disk × Out
   | .newPart =>
     let parts := setLastSize s.parts
@@ -281,22 +297,35 @@ def runDisk : Disk → List Op → List Out
   | _, [] => []
   | s, op :: ops => let (s', o) := s.step op; o :: runDisk s' ops
 
+/-- Final states (the runs above only keep the outputs). -/
+def Spec.exec (s : Spec) (ops : List Op) : Spec := ops.foldl (fun s op => (s.step op).1) s
+def Ram.exec (s : Ram) (ops : List Op) : Ram := ops.foldl (fun s op => (s.step op).1) s
+def Disk.exec (s : Disk) (ops : List Op) : Disk := ops.foldl (fun s op => (s.step op).1) s
+
 /-- The discipline shared by both back ends, the muxer's writers and the documented
     contract ("Finalize makes the file read-only"): writes and seeks address the most
     recently allocated part, nothing is written or allocated after `Finalize`,
-    `Finalize` is called once, readers name existing parts, and (for the RAM≡disk
-    statement) `Remove` has not been called. Decidable by one scan. -/
-def wfFrom : (nparts : Nat) → (fin : Bool) → List Op → Bool
+    `Finalize` is called once, readers name existing parts.  `Remove` is admitted only
+    when `allowRm` is set (the RAM refinement covers it; the RAM≡disk statement holds
+    "until Remove").  Decidable by one scan. -/
+def wfFrom (allowRm : Bool) : (nparts : Nat) → (fin : Bool) → List Op → Bool
   | _, _, [] => true
-  | n, fin, .newPart :: ops => !fin && wfFrom (n+1) fin ops
-  | n, fin, .write k _ :: ops => !fin && k + 1 == n && wfFrom n fin ops
-  | n, fin, .seek k _ _ :: ops => !fin && k + 1 == n && wfFrom n fin ops
-  | n, fin, .finalize :: ops => !fin && wfFrom n true ops
-  | _, _, .remove :: _ => false
-  | n, fin, .readPart k :: ops => decide (k < n) && wfFrom n fin ops
-  | n, fin, .readFile _ :: ops => wfFrom n fin ops
-  | n, fin, .size :: ops => wfFrom n fin ops
+  | n, fin, .newPart :: ops => !fin && wfFrom allowRm (n+1) fin ops
+  | n, fin, .write k _ :: ops => !fin && k + 1 == n && wfFrom allowRm n fin ops
+  | n, fin, .seek k _ _ :: ops => !fin && k + 1 == n && wfFrom allowRm n fin ops
+  | n, fin, .finalize :: ops => !fin && wfFrom allowRm n true ops
+  | n, fin, .remove :: ops => allowRm && wfFrom allowRm n fin ops
+  | n, fin, .readPart k :: ops => decide (k < n) && wfFrom allowRm n fin ops
+  | n, fin, .readFile _ :: ops => wfFrom allowRm n fin ops
+  | n, fin, .size :: ops => wfFrom allowRm n fin ops
 
-def WF (ops : List Op) : Prop := wfFrom 0 false ops = true
+/-- Disciplined, and `Remove` not called. -/
+def WF (ops : List Op) : Prop := wfFrom false 0 false ops = true
+
+/-- Disciplined; `Remove` may occur anywhere. -/
+def WFrm (ops : List Op) : Prop := wfFrom true 0 false ops = true
+
+instance (ops : List Op) : Decidable (WF ops) := inferInstanceAs (Decidable (_ = true))
+instance (ops : List Op) : Decidable (WFrm ops) := inferInstanceAs (Decidable (_ = true))
 
 end Hls.Storage
